@@ -98,8 +98,8 @@ theorem cfgRel_of_frame {cx : Ctx} {e e' : SEE} {cfg : Spec.Cfg} (hc : CfgRel cx
   exact { flags := by rw [h2]; exact hc.flags, sv := by rw [h3]; exact hc.sv, z := by rw [h5]; exact hc.z,
           rm := by rw [h4, h2]; exact hc.rm, sha256 := hc.sha256, ripemd160 := hc.ripemd160, sha1 := hc.sha1,
           checkLowS := hc.checkLowS, checkLockTime := hc.checkLockTime, checkSequence := hc.checkSequence,
-          ecdsa := hc.ecdsa, schnorr := hc.schnorr, pretendMap := by rw [h6]; exact hc.pretendMap,
-          pretendKeys := by rw [h7, h6]; exact hc.pretendKeys }
+          ecdsa := hc.ecdsa, schnorr := hc.schnorr, pretendKeys := by rw [h7]; exact hc.pretendKeys,
+          pretendPair := by rw [h7, h6]; exact hc.pretendPair }
 
 theorem countOp_ok_cases {e e1 : SEE} {n : Nat} (h : Model.countOp e n = .ok e1) :
     e1 = e ∨ e1 = { e with nOpCount := e.nOpCount + 1 } := by
